@@ -10,7 +10,7 @@ import sys
 import time
 from concurrent.futures import ThreadPoolExecutor
 
-from common import (CACHE, GOENV, Infra, REPO, TLA, VERIF, copy_specs, locked, log, run, scratch, seed, tlc,
+from common import (CACHE, GOENV, Infra, REPO, TLA, VERIF, copy_specs, locked, log, run, scratch, seed, tlc, tlc_to_file,
                     tlc_stats, tree_key)
 
 TICK_MS = 20
@@ -155,10 +155,14 @@ def simulate_scripts(work, cfgname, module, num, depth, sd, workers=4, timeout=9
 def edge_scripts(work, module, cfg, tag, workers=4, timeout=900):
     """Every transition of a bounded model, dumped by TLC (Edges_*.tla), covered by walks of the quotient graph."""
     import planner
-    rc, out = tlc(work, module, cfg, workers=workers, timeout=timeout)
-    vers, edges = planner.parse_edges(out)
+    # the dump goes to a file and is reduced line by line (hundreds of MB of JSON)
+    dump = os.path.join(work, "edges-%s.out" % tag)
+    rc = tlc_to_file(work, module, cfg, dump, workers=workers, timeout=timeout)
+    with open(dump, errors="replace") as f:
+        vers, edges = planner.parse_edges(f)
     if not vers or not edges:
-        raise Infra("TLC edge dump produced nothing (%s):\n%s" % (cfg, out[-2000:]))
+        raise Infra("TLC edge dump produced nothing (%s):\n%s" % (cfg, open(dump, errors="replace").read()[-2000:]))
+    os.remove(dump)
     plans, stats = planner.plan(vers, edges, expectations=True)
     scripts = []
     for i, pl in enumerate(plans):
@@ -454,12 +458,12 @@ def engine(tier):
             # against the TLC-dumped transition graph (lib/conform.py), all gated scripts by TLC itself (lib/impltrace.py)
             import conform
             import impltrace
-            conf = conform.validate(work, scripts, traces)
+            ops = conform.op_lines(traces, {s["id"] for s in scripts if s.get("gated") and s.get("itsrc")})
+            conf = conform.validate(work, scripts, ops)
             for dr in conf["drift"][:20]:
                 sys.stderr.write("CONFORM-DRIFT %s\n" % json.dumps(dr))
             conf["drift_count"] = len(conf["drift"])
             conf["drift"] = conf["drift"][:20]
-            ops = conform.op_lines(traces, {s["id"] for s in scripts if s.get("gated") and s.get("itsrc")})
             it_jobs = []
             for tag, (module, cfg) in it_sources.items():
                 mine = [s for s in scripts if s.get("gated") and s.get("itsrc") == tag and not s.get("slow")]
